@@ -1521,4 +1521,52 @@ theorem heap_free_all_any_order (cfg : Cfg) (ok : CfgOK cfg) (h : Heap) (hr : Re
 
 example : run ⟨64, 0⟩ ⟨216, [(72, 64)], [(144, 64), (0, 64)]⟩ [.free (some 8), .free (some 152)] = some Heap.init := by decide
 
+
+/-- `realloc(p, 0)` (after `fix: realloc() enforces malloc()'s minimum chunk size`): never
+NULL, never moves, and the block stays live with at least the minimum chunk of 8 bytes — it
+is NOT a `free` -/
+theorem realloc_zero_keeps_block (cfg : Cfg) (ok : CfgOK cfg) (h : Heap) (p sz : Nat) (hr : Reach cfg h)
+    (h8 : 8 ≤ p) (hl : lookup (p - 8) h.live = some sz) :
+    ∃ r, realloc cfg h (some p) 0 = some r ∧ r.ret = some p ∧
+      ∃ s, lookup (p - 8) r.h.live = some s ∧ 8 ≤ s := by
+  obtain ⟨r, hs⟩ := realloc_total (cfg := cfg) (n := 0) h8 hl
+  have hsz := ((hr.inv ok).wfL _ (lookup_mem hl)).1
+  simp only at hsz
+  have hlen : minLen (roundLen cfg.W 0) = 8 := by simp [roundLen, minLen]
+  have hret : r.ret = some p := (realloc_in_place_iff cfg ok h p 0 sz r hr hl hs).2 (Or.inl (by rw [hlen]; exact hsz))
+  obtain ⟨s, h1, _, _, _, _⟩ := realloc_returns_valid_block cfg ok h p 0 sz p r hr hl hs hret
+  have hw := ((realloc_inv cfg ok h (some p) 0 r (hr.inv ok) hs).wfL _ (lookup_mem h1)).1
+  exact ⟨r, hs, hret, s, h1, hw⟩
+
+/-- a request from a critical context (interrupt handler) aborts before it touches the heap —
+except `free(NULL)`, which returns first; at level 0 it is the ordinary request.  The cells an
+iteration of igris::pool dereferences (`operator*` = `cell(_num)`) are the live cells. -/
+theorem heap_critical_context_aborts (lvl base : Nat) (cfg : Cfg) (h : Heap) (op : Op) :
+    (op ≠ .free none → 0 < lvl → stepCtx lvl base cfg h op = none) ∧
+    (stepCtx 0 base cfg h op = some (stepA base cfg h op)) ∧
+    (stepCtx lvl base cfg h (.free none) = some (some ⟨h, none, []⟩)) := by
+  refine ⟨fun hne hl => ?_, ?_, rfl⟩
+  · cases op with
+    | malloc n => simp [stepCtx, hl]
+    | free p => cases p with
+      | none => exact absurd rfl hne
+      | some p => simp [stepCtx, hl]
+    | realloc p n => simp [stepCtx, hl]
+  · cases op with
+    | malloc n => simp [stepCtx]
+    | free p => cases p <;> simp [stepCtx, stepA]
+    | realloc p n => simp [stepCtx]
+
+theorem ipool_iterator_deref (e n : Nat) (he : 0 < e) (ops : List IOp) (s : IState)
+    (hr : irun ⟨IPool.init (n * e) e, []⟩ ops = some s) :
+    ∀ i ∈ s.pool.iterAll, s.pool.cell i.toNat ∈ s.live ∧ s.pool.cell i.toNat + e ≤ n * e := by
+  intro i hi
+  obtain ⟨_, _, _, hel⟩ := irun_inv he (IInv.init e n he) hr
+  obtain ⟨h0, hn, hmem⟩ := (ipool_iteration_visits_live_cells e n he ops s hr).2.2.1 i hi
+  have hcell : s.pool.cell i.toNat = i.toNat * e := by simp [IPool.cell, hel, Nat.mul_comm]
+  rw [hcell]
+  refine ⟨hmem, ?_⟩
+  have hlt : i.toNat < n := by omega
+  exact cell_in_zone hlt
+
 end Igris.C10
